@@ -1,10 +1,12 @@
 #!/bin/sh
-# copies the deliverables of a seeding agent (worktree /tmp/seedwt_<ID>/seeded_out/<k>) to /verif/seeded/<ID>-<k>
+# copies the deliverables of a seeding agent (worktree /tmp/seedwt_<ID>/seeded_out/<k>) to /verif/seeded/<ID>-<k+offset>
+# usage: seeded_collect.sh <ID> [offset]     (second round of agents: offset 2)
 ID=$1
+OFF=${2:-0}
 for k in 1 2 3; do
   src=/tmp/seedwt_$ID/seeded_out/$k
   [ -f $src/patch.diff ] || continue
-  dst=/verif/seeded/$ID-$k
+  dst=/verif/seeded/$ID-$((k + OFF))
   mkdir -p $dst
   cp $src/patch.diff $dst/
   [ -f $src/meta.json ] && cp $src/meta.json $dst/
